@@ -35,7 +35,7 @@ CORPUS = [
 def main():
     R = vf.Report(PID)
     proved = R.proof_step()
-    n = 40000 if R.thorough else 3000
+    n = 150000 if R.thorough else 3000
     sessions = list(CORPUS) + [G.gen_session(R.rng, raising=(i % 5 == 0)) for i in range(n)]
     out = vf.impl("impl_array.py", {"mode": "sessions", "sessions": sessions})
     impl, cats = out["results"], out["cat_dtypes"]
